@@ -227,7 +227,7 @@ class FuncAnalysis:
                 if isinstance(t, (ast.Subscript, ast.Attribute)):
                     for o in self.expr(t.value):
                         self.record_mut(o, st, src_of(st))
-        elif isinstance(st, (ast.FunctionDef, ast.ClassDef, ast.Pass, ast.Break, ast.Continue, ast.Global, ast.Import, ast.ImportFrom)):
+        elif isinstance(st, (ast.FunctionDef, ast.ClassDef, ast.Pass, ast.Break, ast.Continue, ast.Global, ast.Nonlocal, ast.Import, ast.ImportFrom)):
             pass
         else:
             raise AnalysisError('effects: statement kind %s not handled (%s:%d)' % (type(st).__name__, self.f.module.relpath, st.lineno))
